@@ -1,7 +1,8 @@
 #!/bin/sh
-# Build the framework offline: Lean project (models, proofs, driver) and the Rust harness binaries.
+# Build the framework offline: Lean project (models, proofs, property theorems, driver) and the Rust harness binaries.
 set -e
 cd "$(dirname "$0")"
 export CARGO_NET_OFFLINE=true
-(cd lean/DustVerif && lake build DustVerif dustmodel)
+MODS=$(cd lean/DustVerif && ls DustVerif/Props/*.lean | sed 's/\.lean$//; s/\//./g')
+(cd lean/DustVerif && lake build DustVerif dustmodel $MODS)
 (cd harness && cargo build --offline --bins 2>&1 | tail -3) || true
